@@ -1,6 +1,8 @@
 package main
 
 import (
+	"sort"
+	"fmt"
 	"go/token"
 	"strings"
 
@@ -20,6 +22,7 @@ func propC19() *Property {
 			{ID: "R19.3", Floor: 3, Text: "quota gate in inputData / checkQuota", Run: r19_3},
 			{ID: "R19.4", Floor: 3, Text: "doRollUp linear use, final flush, no mutation of existing records", Run: r19_4},
 			{ID: "R19.6", Floor: 6, Text: "the per-user counters are attached when a server session is created (before Accept can hand it out); other stores are the nil-guarded lazy path; creation sites pass the authenticated user's policy", Run: r19_6},
+			{ID: "R19.8", Floor: 1, Text: "every datagram segment that carries an authenticated cipher also carries that user's policy (a session created from a datagram decrypted by an existing session of the same user is still bound to the user's quota)", Run: r19_8},
 			{ID: "R19.7", Floor: 1, Text: "RegisterMetric registers in the group the registry returned, never in one it allocated itself", Run: r19_7},
 			{ID: "R19.5", Floor: 1, Text: "loadCounterFromMetricPB: Add(max(0, src-dst))", Run: r19_5},
 		},
@@ -813,5 +816,70 @@ func r19_7(c *RC) {
 	})
 	if n == 0 {
 		c.Undecided("metric-in-registered-group", fn.Pos(), "no group.metrics.LoadOrStore found in RegisterMetric")
+	}
+}
+
+
+// r19_8: on the datagram transport a new session can be created from a
+// segment that was decrypted with the cipher of an existing session of the
+// same client address, without going through user discovery. Its quota is
+// enforced only if the segment carries the matched user's policy. Decided: in
+// PacketUnderlay.readOneSegment every store seg.block = <matched cipher> has
+// a store seg.serverUserPolicy = <matched policy> under exactly the same
+// conditions.
+func r19_8(c *RC) {
+	p := c.P
+	fn := p.Fn(protoPkg, "PacketUnderlay.readOneSegment")
+	blk := p.Field(protoPkg, "segment", "block")
+	pol := p.Field(protoPkg, "segment", "serverUserPolicy")
+	if fn == nil || blk == nil || pol == nil {
+		c.Anchor("PacketUnderlay.readOneSegment / segment.block / segment.serverUserPolicy")
+		return
+	}
+	edgeKey := func(b *ssa.BasicBlock) string {
+		var ks []string
+		for _, e := range controllingEdges(b) {
+			ks = append(ks, fmt.Sprintf("%d/%d", e.If.Block().Index, e.Idx))
+		}
+		sort.Strings(ks)
+		return strings.Join(ks, ",")
+	}
+	type st struct {
+		in   *ssa.Store
+		base ssa.Value
+	}
+	var blocks, pols []st
+	for _, f := range withHelpers(p, fn, 1) {
+		instrs(f, func(_ *ssa.BasicBlock, _ int, in ssa.Instruction) {
+			s, ok := in.(*ssa.Store)
+			if !ok {
+				return
+			}
+			fld, base := fieldOfAddr(s.Addr)
+			switch {
+			case sameField(fld, blk) && !isNilConst(s.Val):
+				blocks = append(blocks, st{s, base})
+			case sameField(fld, pol):
+				pols = append(pols, st{s, base})
+			}
+		})
+	}
+	if len(blocks) == 0 {
+		c.Undecided("policy-travels-with-cipher", fn.Pos(), "readOneSegment sets no segment.block")
+		return
+	}
+	for _, b := range blocks {
+		key := "policy-travels-with-cipher"
+		good := false
+		for _, q := range pols {
+			if q.in.Parent() == b.in.Parent() && q.base == b.base && (q.in.Block() == b.in.Block() || edgeKey(q.in.Block()) == edgeKey(b.in.Block())) {
+				good = true
+			}
+		}
+		if good {
+			c.OKH(key, b.in.Pos(), "seg.serverUserPolicy is set wherever seg.block is")
+		} else {
+			c.Bad(key, b.in.Pos(), "a datagram segment gets the authenticated cipher without the matched user's policy under the same conditions: a session opened by a datagram that an existing session of the same address decrypted is created without a policy, checkQuota finds no user, and an over-quota user is served")
+		}
 	}
 }
